@@ -218,6 +218,10 @@ pub assume_specification<F: FnOnce() -> Ordering> [ Ordering::then_with ] (a: Or
 pub assume_specification<T, U, F: FnOnce(T) -> U> [ Option::<T>::map_or ] (o: Option<T>, d: U, f: F) -> (r: U)
     requires o matches Some(x) ==> call_requires(f, (x,)),
     ensures match o { Some(x) => call_ensures(f, (x,), r), None => r == d };
+/// `i64::abs` overflows (panics in builds with overflow checks) on i64::MIN
+pub assume_specification [ i64::abs ] (x: i64) -> (r: i64)
+    requires x != i64::MIN,
+    ensures r == (if x < 0 { -x } else { x as int });
 pub assume_specification<T, F: FnOnce(T) -> bool> [ Option::<T>::is_some_and ] (o: Option<T>, f: F) -> (r: bool)
     requires o matches Some(x) ==> call_requires(f, (x,)),
     ensures match o { Some(x) => call_ensures(f, (x,), r), None => !r };
